@@ -613,6 +613,226 @@ def _pending_state_changes(ctx, pred):
     return sites, leaves, owners
 
 
+_TRUE, _FALSE = ('const', 'int', '1', ''), ('const', 'int', '0', '')
+
+
+def _pred_disjuncts(ctx, pred):
+    """Send::is_pending stated structurally: when the body of `pred` is a pure short-circuit disjunction
+    `A1 || A2 || .. || An` of reads of `self`, the list [(descriptor over ('param', 1, 'self'), inverted)] of its operands
+    (operand i holds when its descriptor evaluates to `not inverted`); None when the body has any other shape.  Read off
+    the MIR: every branch returns `true` on its holding edge and falls to the next operand on the other one, the last
+    operand is the value returned when all branches fell through."""
+    F = ctx.facts
+    d = describer(F, pred)
+    brs = {br.bb: br for br in branches(F, pred)}
+    rets = set(pred.return_blocks())
+
+    def returned_from(bb):
+        seen = set()
+        while bb not in seen:
+            seen.add(bb)
+            t = pred.blocks[bb]['t']
+            if t[0] != 'goto':
+                return None
+            if t[1] in rets:
+                return d.place([0, []], bb, term_idx(pred, bb))
+            bb = t[1]
+        return None
+
+    atoms, cur, seen = [], 0, set()
+    while True:
+        if cur is None or cur in seen or cur in rets:
+            return None
+        seen.add(cur)
+        t = pred.blocks[cur]['t']
+        if t[0] == 'switch':
+            br = brs.get(cur)
+            if br is None:
+                return None
+            inner, t_yes, t_no = _bool_edges_of(br)
+            if t_yes is None or t_no is None or t_yes == t_no or returned_from(t_yes) != _TRUE:
+                return None
+            atoms.append((inner, False))
+            cur = t_no
+        elif t[0] == 'call':
+            cur = t[1].get('t')
+        elif t[0] == 'goto':
+            if t[1] in rets:
+                v, neg = peel_not(d.place([0, []], cur, term_idx(pred, cur)))
+                if v == _TRUE or v[0] == 'phi':
+                    return None
+                if v != _FALSE:
+                    atoms.append((v, neg))
+                break
+            cur = t[1]
+        else:
+            return None
+    if not atoms or not all(any(x[0] == 'param' for x in walk(a)) and all(x[0] != 'param' or x[1] == 1 for x in walk(a)) for a, n in atoms):
+        return None
+    return atoms
+
+
+def _match_over_self(a, x, bind):
+    """descriptor x is descriptor a with ('param', 1, 'self') replaced by ONE object (recorded in bind['S']); the block of a
+    call node is not part of its identity"""
+    if isinstance(a, tuple) and a and a[0] == 'param':
+        if 'S' in bind:
+            return bind['S'] == x
+        bind['S'] = x
+        return True
+    if isinstance(a, tuple):
+        if not isinstance(x, tuple):
+            return False
+        if a and a[0] == 'call':
+            return bool(x) and x[0] == 'call' and len(x) >= 4 and a[1] == x[1] and a[2] == x[2] and _match_over_self(a[3], x[3], bind)
+        return len(a) == len(x) and all(_match_over_self(p, q, bind) for p, q in zip(a, x))
+    return a == x
+
+
+class _WrittenOutSample:
+    """the predicate written out in a function: anchor = block where its evaluation starts, yes / no = the branch edges
+    (block, target) on which it is decided true / false, cut = the blocks of those branches and the anchor"""
+    __slots__ = ('anchor', 'yes', 'no', 'cut', 'line')
+
+
+def _written_out_samples(ctx, f, atoms):
+    """Evaluations of the disjunction `atoms` (see _pred_disjuncts) spelled out in `f` on ONE object S, in any operand order,
+    directly in a condition (`if !(a(S) || S.b)`) or through bool locals (`let q = a(S) || S.b; .. if !q`).
+    Decided by walking every path from a block that evaluates an operand: the walk tracks which bool local holds which
+    operand / constant / negation, forks at a branch on an operand, follows only the consistent edge of a branch on a known
+    value, and ends at the first block that does anything else than assign locals (a store to memory, any other call, a
+    branch on something unrelated).  The evaluation counts only if on EVERY path the predicate is decided by then (some
+    operand true, or all false), nothing on the way can change state, and the anchor dominates all of it.  A condition that
+    tests only some operands, mixes in other conditions before the decision, or combines the operands differently
+    (`a && b`, inverted operand) is not accepted as a sample."""
+    F = ctx.facts
+    d = describer(F, f)
+    brs = {br.bb: br for br in branches(F, f)}
+    calls = {c.bb: c for c in f.calls()}
+    live = f.live_blocks()
+
+    def atom_of(x, bind):
+        for i, (a, inv) in enumerate(atoms):
+            b2 = dict(bind)
+            if _match_over_self(a, x, b2):
+                bind.update(b2)
+                return i, inv
+        return None
+
+    def local_of(o):
+        return o[1][0] if o[0] in ('c', 'm') and not o[1][1] else None
+
+    def stmt_value(s, bb, j, env, bind):
+        """value of a whole-local assignment: ('const', bool) | ('atom', i, inverted) | None"""
+        rv = s[2]
+        if rv[0] == 'use':
+            o = rv[1]
+            if o[0] == 'k':
+                return ('const', o[2] == '1') if o[1] == 'int' and len(o) > 3 and o[3] == 'bool' else None
+            if local_of(o) is not None:
+                return env.get(local_of(o))
+            m = atom_of(d.rvalue(rv, bb, j, 0), bind)
+            return ('atom', m[0], m[1]) if m else None
+        if rv[0] == 'un' and rv[1] == 'Not' and local_of(rv[2]) is not None:
+            v = env.get(local_of(rv[2]))
+            if v is None:
+                return None
+            return ('const', not v[1]) if v[0] == 'const' else ('atom', v[1], not v[2])
+        return None
+
+    def evaluates(bb):
+        """index of the first statement of bb reading an operand (len(stmts) when the operand is the block's call)"""
+        blk = f.blocks[bb]
+        for j, s in enumerate(blk['s']):
+            if s[0] == '=' and not s[1][1] and s[2][0] == 'use' and s[2][1][0] in ('c', 'm') and s[2][1][1][1]:
+                if atom_of(d.rvalue(s[2], bb, j, 0), {}):
+                    return j
+        c = calls.get(bb)
+        if blk['t'][0] == 'call' and c is not None and atom_of(d.call_desc(c, 0), {}):
+            return len(blk['s'])
+        return None
+
+    out = []
+    for e in sorted(live):
+        j0 = evaluates(e)
+        if j0 is None:
+            continue
+        acc = {True: set(), False: set(), 'bad': False}
+        region = set()
+        bind = {}
+
+        def decided(known):
+            if any(known.values()):
+                return True
+            return False if len(known) == len(atoms) else None
+
+        def stop(known, last):
+            v = decided(known)
+            if v is None or last is None:
+                acc['bad'] = True
+            else:
+                acc[v].add(last)
+
+        def go(bb, start, env, known, last, onpath):
+            if acc['bad']:
+                return
+            if bb in onpath:
+                acc['bad'] = True
+                return
+            blk = f.blocks[bb]
+            t = blk['t']
+            stmts = list(enumerate(blk['s']))[start:]
+            c = calls.get(bb)
+            am = None
+            pure = all(s[0] in ('live', 'dead', 'nop') or (s[0] == '=' and not s[1][1]) for j, s in stmts) and t[0] in ('goto', 'switch', 'call')
+            if pure and t[0] == 'call':
+                am = atom_of(d.call_desc(c, 0), bind) if c is not None and not c.dst[1] and c.t is not None else None
+                pure = am is not None
+            if not pure:
+                return stop(known, last)
+            region.add(bb)
+            env = dict(env)
+            for j, s in stmts:
+                if s[0] == '=':
+                    env[s[1][0]] = stmt_value(s, bb, j, env, bind)
+            onpath = onpath | {bb}
+            if t[0] == 'goto':
+                return go(t[1], 0, env, known, last, onpath)
+            if t[0] == 'call':
+                env[c.dst[0]] = ('atom', am[0], am[1])
+                return go(c.t, 0, env, known, last, onpath)
+            br = brs.get(bb)
+            l = local_of(t[1])
+            v = env.get(l) if l is not None else None
+            if br is None or v is None:
+                return stop(known, last)
+            if v[0] == 'const':
+                tgt = br.target(1 if v[1] else 0)
+                return go(tgt, 0, env, known, (bb, tgt), onpath) if tgt is not None else stop({}, None)
+            i, inv = v[1], v[2]
+            for holds in ((known[i],) if i in known else (True, False)):
+                tgt = br.target(1 if (holds != inv) else 0)
+                if tgt is None:
+                    acc['bad'] = True
+                    return
+                k2 = dict(known)
+                k2[i] = holds
+                go(tgt, 0, env, k2, (bb, tgt), onpath)
+
+        go(e, j0, {}, {}, None, frozenset())
+        if acc['bad'] or not acc[True] or not acc[False] or (acc[True] & acc[False]):
+            continue
+        if not all(f.dominates(e, b) for b in region):
+            continue
+        sm = _WrittenOutSample()
+        sm.anchor, sm.yes, sm.no = e, sorted(acc[True]), sorted(acc[False])
+        sm.cut = {e} | {b for b, tg in acc[True] | acc[False]}
+        t = f.blocks[e]['t']
+        sm.line = t[1]['line'] if t[0] == 'call' else (f.blocks[e]['s'][j0][3] if j0 < len(f.blocks[e]['s']) else 0)
+        out.append(sm)
+    return out
+
+
 def rule_j(ctx):
     """Queue membership.  write_stream_frames only ever looks at streams popped from StreamsState.pending, so a stream whose
     is_pending() is true but which is not in that queue is never transmitted again and nothing re-queues it (every site
@@ -626,6 +846,9 @@ def rule_j(ctx):
     sites, leaves, owners = _pending_state_changes(ctx, pred)
     ctx.floor('j', 'pending_predicate_fields', len(leaves), 2)
     PUSH = ('PendingStreamsQueue::push_pending', 'PendingStreamsQueue::reinsert_pending')
+    # Send::is_pending as a disjunction of reads of `self` (None when its body is anything else): lets a function that
+    # spells the predicate out on the same stream (`s.pending.has_unsent_data() || s.fin_pending`) count as taking a sample
+    disj = _pred_disjuncts(ctx, pred)
     nfn = 0
     for rid in sorted(sites):
         f = F.bodies[rid]
@@ -637,37 +860,45 @@ def rule_j(ctx):
         samples = [c for c in f.calls_to('Send::is_pending')]
         push = {c.bb for c in f.calls_to(*PUSH)}
         pops = {c.bb for c in f.calls_to('PendingStreamsQueue::pop')}
-        sample_bbs = {c.bb for c in samples}
-        absent, requeue, odd = [], [], []
+        # a decision = (blocks where the sample is taken, targets of the edges on which it is true, .. false, blocks that cut
+        # the search for the push: the deciding branch(es) and, for a written-out sample, its first block)
+        decisions = []
         for br in branches(F, f):
             inner, t_yes, t_no = _bool_edges_of(br)
             ss = [c for c in samples if inner[0] in ('call', 'phi') and is_site(inner, c)]
             if not ss or t_yes is None or t_no is None or t_yes == t_no:
                 continue
-            on_no = push & f.reachable_from(t_no, avoid=[br.bb])
-            on_yes = push & f.reachable_from(t_yes, avoid=[br.bb])
+            decisions.append(([c.bb for c in ss], [t_yes], [t_no], {br.bb}))
+        written = _written_out_samples(ctx, f, disj) if disj else []
+        for sm in written:
+            decisions.append(([sm.anchor], [t for b, t in sm.yes], [t for b, t in sm.no], sm.cut))
+        sample_bbs = {c.bb for c in samples} | {sm.anchor for sm in written}
+        absent, requeue, odd = [], [], []
+        for anchors, yes, no, cut in decisions:
+            on_no = push & f.reachable_from(no, avoid=cut)
+            on_yes = push & f.reachable_from(yes, avoid=cut)
             if on_no and not on_yes:
-                absent.append((br, ss, t_yes, t_no))
+                absent.append((anchors, yes, no))
             elif on_yes and not on_no:
-                requeue.append((br, ss, t_yes, t_no))
+                requeue.append((anchors, yes, no))
             else:
-                odd.append(br)
+                odd.append(anchors)
         if not push or not (absent or requeue):
             ctx.bad('j', 'pending_state_changed_without_queue_protocol', f, ms[0][2],
-                    '%s changes the state read by Send::is_pending (%s) but has no branch on an is_pending() sample that decides a push into the pending-streams queue: a stream made pending here is never transmitted' % (f.short, ms[0][3]))
+                    '%s changes the state read by Send::is_pending (%s) but has no branch on an is_pending() sample (a call, or the predicate written out on one stream) that decides a push into the pending-streams queue: a stream made pending here is never transmitted' % (f.short, ms[0][3]))
             continue
         ends = set(f.return_blocks())
         # (1) ordering of every change against the sample that decides the push
         bad = []
         for b, bb, where, text in ms:
             ok = False
-            for br, ss, t_yes, t_no in absent:
-                if any(s.bb != bb and f.dominates(s.bb, bb) for s in ss):
+            for anchors, yes, no in absent:
+                if any(sb != bb and f.dominates(sb, bb) for sb in anchors):
                     ok = True
-            for br, ss, t_yes, t_no in requeue:
-                for s in ss:
-                    after = f.reachable_from(list(f.succ[s.bb]), avoid=pops)
-                    sampled = bb == s.bb or path_avoiding(f, list(f.succ[bb]), ends | pops, {s.bb}) is None
+            for anchors, yes, no in requeue:
+                for sb in anchors:
+                    after = f.reachable_from(list(f.succ[sb]), avoid=pops)
+                    sampled = bb == sb or path_avoiding(f, list(f.succ[bb]), ends | pops, {sb}) is None
                     if bb not in after and sampled:
                         ok = True
             if not ok:
@@ -679,12 +910,12 @@ def rule_j(ctx):
                       f.short, kind, 'before the change (a sample taken afterwards is always true, so nothing is pushed)' if absent else 'after the change', '; '.join(bad)))
         # (2) the deciding edge always reaches the push before the function returns / the next stream is looked at
         esc = []
-        for br, ss, t_yes, t_no in absent:
-            p = path_avoiding(f, [t_no], ends | sample_bbs | pops, push)
+        for anchors, yes, no in absent:
+            p = path_avoiding(f, no, ends | sample_bbs | pops, push)
             if p is not None:
                 esc.append('not-pending edge: ' + fmt_path(f, p))
-        for br, ss, t_yes, t_no in requeue:
-            p = path_avoiding(f, [t_yes], ends | sample_bbs | pops, push)
+        for anchors, yes, no in requeue:
+            p = path_avoiding(f, yes, ends | sample_bbs | pops, push)
             if p is not None:
                 esc.append('still-pending edge: ' + fmt_path(f, p))
         ctx.check(not esc and not odd, 'j', 'deciding_edge_always_queues', f, ms[0][2], '%s: every path from the deciding edge passes push_pending / reinsert_pending' % kind,
@@ -821,6 +1052,47 @@ def _is_diff_of(d, a, b):
                                      (d[0] == 'call' and _last(d[1]) in ('saturating_sub', 'wrapping_sub') and len(d[3]) == 2 and d[3][0] == a and d[3][1] == b))
 
 
+def _named_temp(pt, dn, v):
+    """(value, def block, def index) when v is a user-named local of `pt` with exactly ONE definition, a plain `let t = <expr>;`
+    statement: `value` is <expr> described with named locals kept as names.  None for anything else (re-assigned locals,
+    call results, parameters)."""
+    if not (isinstance(v, tuple) and v and v[0] == 'local' and v[2]):
+        return None
+    if v[1] in dn.mut_borrowed or 1 <= v[1] <= pt.argc:
+        return None
+    defs = pt.defs_of(v[1])
+    if len(defs) != 1 or defs[0][0] != 'stmt':
+        return None
+    k, db, j, rv = defs[0]
+    return dn.rvalue(rv, db, j, 0), db, j
+
+
+def _unchanged_between(pt, dn, value, db, j, use_bb):
+    """no named local read by `value` (computed at statement j of block db) can be re-assigned on a path from that
+    statement to the terminator of use_bb that does not recompute the temporary: the temporary still equals the expression
+    over the CURRENT values of those locals when it is tested"""
+    after = pt.reachable_from(list(pt.succ[db]), avoid=[db])
+    if use_bb != db and use_bb not in after:
+        return False
+    for x in walk(value):
+        if x[0] != 'local':
+            continue
+        if x[1] in dn.mut_borrowed:
+            return False
+        for df in pt.defs_of(x[1]):
+            if df[0] == 'arg':
+                continue
+            xb = df[1]
+            if xb == db:
+                # an earlier statement of the defining block runs again only after the definition itself was passed again
+                if df[0] in ('call', 'callfield', 'yield') or df[2] > j:
+                    return False
+                continue
+            if xb in after and (xb == use_bb or use_bb in pt.reachable_from([xb], avoid=[db])):
+                return False
+    return True
+
+
 def rule_l(ctx):
     """PTO probes are what lets the sender notice that the path MTU shrank (their ack declares the large packets lost, which
     drives black-hole detection).  They only get through if they fit the minimum MTU: the datagram that consumes a loss probe
@@ -896,7 +1168,25 @@ def rule_l(ctx):
             ctx.ok('l', 'padding_within_datagram_allotment', pt, c.where(), 'builder allotted exactly the padded size')
             continue
         # otherwise: dominated by `start + S <= capacity` of a builder of this function, unreachable from its violating edge
-        es = guard_edges(ctx, pt, lambda o, x, y: o == 'Lt' and any((x == cap and _is_sum_of(y, start, a)) or (_is_diff_of(x, cap, start) and y == a) for s, cap, start in built), stop_named=True)
+        # the sum / difference may sit behind a named temporary (`let end = start + S; if cap >= end`): such an operand
+        # stands for its defining expression when the temporary has that single definition and none of the locals the
+        # expression reads can change between the definition and the test
+        def fits(o, x, y, at=None):
+            if o != 'Lt':
+                return False
+            tx, ty = _named_temp(pt, dn, x), _named_temp(pt, dn, y)
+            alts_x = [(x, None, None)] + ([tx] if tx else [])
+            alts_y = [(y, None, None)] + ([ty] if ty else [])
+            for ax in alts_x:
+                for ay in alts_y:
+                    vx, vy = ax[0], ay[0]
+                    if not any((vx == cap and _is_sum_of(vy, start, a)) or (_is_diff_of(vx, cap, start) and vy == a) for s, cap, start in built):
+                        continue
+                    if at is None or all(t[1] is None or _unchanged_between(pt, dn, t[0], t[1], t[2], at) for t in (ax, ay)):
+                        return True
+            return False
+        es = guard_edges(ctx, pt, fits, stop_named=True)
+        es = [(br, truth, tgt) for br, truth, tgt in es if fits(*relation_on(br.desc, truth), at=br.bb)]
         cov = any(pt.dominates(br.bb, c.bb) and c.bb not in pt.reachable_from([tgt], avoid=[br.bb]) for br, truth, tgt in es if tgt is not None)
         ctx.check(cov, 'l', 'padding_within_datagram_allotment', pt, c.where(), 'pad_to(%s) only where datagram_start + size <= buf_capacity' % D.render(a)[:40],
                   'a packet is padded to the run-time size %s although its datagram may have been allotted less (no dominating `start + size <= capacity` test on the '
